@@ -331,3 +331,45 @@ func (o *EncodeOpts) Encode(m protoreflect.Message) []byte {
 	}
 	return out
 }
+
+// Malform damages a well-formed encoding, or adds a record that is legal on
+// the wire but unusual: cut short, a tag turned into an invalid wire type, a
+// length that runs past the end, an over-long varint, field number zero, a
+// (well-nested) group of an unknown field, an end-group without a start.
+func Malform(t *simhook.Tape, b []byte) []byte {
+	out := append([]byte{}, b...)
+	switch t.Draw("malform-kind", 8) {
+	case 0: // cut short
+		if len(out) > 1 {
+			out = out[:1+t.Draw("malform-cut", len(out)-1)]
+		}
+	case 1: // the first tag gets wire type 6 or 7
+		if len(out) > 0 && out[0] < 0x80 {
+			out[0] = out[0]&^7 | byte(6+t.Draw("malform-wt", 2))
+		}
+	case 2: // a length-delimited record whose length runs past the end
+		out = protowire.AppendTag(out, protowire.Number(1+t.Draw("malform-num", 40)), protowire.BytesType)
+		out = protowire.AppendVarint(out, uint64(5+t.Draw("malform-len", 1<<20)))
+		out = append(out, 1, 2, 3)
+	case 3: // over-long varint
+		out = protowire.AppendTag(out, protowire.Number(1+t.Draw("malform-num", 40)), protowire.VarintType)
+		out = append(out, 0x80, 0x80, 0x80, 0x80, 0x80, 0x80, 0x80, 0x80, 0x80, 0x80, 0x01)
+	case 4: // field number zero
+		out = append(out, 0x00, 0x01)
+	case 5: // a well-nested group under an unknown number (legal; the decoder has to skip it)
+		num := protowire.Number(19000 - 1 - t.Draw("malform-gnum", 50))
+		out = protowire.AppendTag(out, num, protowire.StartGroupType)
+		out = protowire.AppendTag(out, 1, protowire.VarintType)
+		out = protowire.AppendVarint(out, 7)
+		out = protowire.AppendTag(out, 2, protowire.BytesType)
+		out = protowire.AppendBytes(out, []byte("in-group"))
+		out = protowire.AppendTag(out, num, protowire.EndGroupType)
+	case 6: // end-group without a start
+		out = protowire.AppendTag(out, protowire.Number(1+t.Draw("malform-num", 40)), protowire.EndGroupType)
+	case 7: // a group that never ends
+		out = protowire.AppendTag(out, protowire.Number(18000), protowire.StartGroupType)
+		out = protowire.AppendTag(out, 1, protowire.VarintType)
+		out = protowire.AppendVarint(out, 1)
+	}
+	return out
+}
